@@ -2,7 +2,7 @@ namespace OsloPolicy.Generated
 /-- `ParseState.reducers`: (pattern bottom→top, method name) in metaclass order -/
 def reducers : List (List String × String) := [(["(", "or_expr", ")"], "_wrap_check"), (["(", "and_expr", ")"], "_wrap_check"), (["(", "check", ")"], "_wrap_check"), (["check", "and", "check"], "_make_and_expr"), (["or_expr", "and", "check"], "_mix_or_and_expr"), (["and_expr", "and", "check"], "_extend_and_expr"), (["and_expr", "or", "check"], "_make_or_expr"), (["check", "or", "check"], "_make_or_expr"), (["or_expr", "or", "check"], "_extend_or_expr"), (["not", "check"], "_make_not_expr")]
 def unreducedTokens : List String := ["(", ")", "and", "or", "not", "string"]
-def keywords : List String := ["and", "or", "not"]
+def keywords : List String := ["and", "not", "or"]
 def quotePairs : List (List String) := [["\"", "\""], ["'", "'"]]
 def tokenizeRe : String := "\\s+"
 def registeredKinds : List String := ["<None>", "role", "rule"]
